@@ -171,8 +171,8 @@ partial def loop (h : IO.FS.Stream) (l : Drummer.Loop) : IO Unit := do
         match l.db.apply (.requests rs) with
         | .ok (db', n) => let l' := { l with db := db' }; out s!"sched {rs.length} {n}" l'; loop h l'
         | .panic _ => IO.println "panic"; loop h l
-    | "execute" => let l' := l.execute (js j "addr"); out "exec" l'; loop h l'
-    | "progress" => let l' := l.progress (js j "addr") (jb j "all"); out "progress" l'; loop h l'
+    | "execute" => let l' := (l.execute (js j "addr")).settle (js j "addr"); out "exec" l'; loop h l'
+    | "progress" => let l' := (l.progress (js j "addr") (jb j "all")).settle (js j "addr"); out "progress" l'; loop h l'
     | "crash" => let l' := l.crash (js j "addr"); out "crash" l'; loop h l'
     | "restart" => let l' := l.restart (js j "addr"); out "restart" l'; loop h l'
     | _ => IO.println "bad-op"; loop h l
